@@ -31,10 +31,12 @@
 #include "configuration.h"
 #include "message.h"
 
+#include <fcntl.h>
 #include <limits.h>
 #include <stdio.h>
 #include <stdlib.h>
 #include <string.h>
+#include <unistd.h>
 
 
 
@@ -53,10 +55,12 @@
  */
 int snoopy_output_fileoutput (char const * const logMessage, char const * const arg)
 {
-    char   filePathBuf[PATH_MAX] = {'\0'};
-    char * filePath = filePathBuf;
-    FILE  *fp;
-    int    charCount;
+    char    filePathBuf[PATH_MAX] = {'\0'};
+    char   *filePath = filePathBuf;
+    int     fd;
+    size_t  logMessageLength;
+    char   *recordBuf;
+    ssize_t bytesWritten;
 
     // Check if output file is properly configured
     if (0 == strcmp(arg, "")) {
@@ -66,14 +70,28 @@ int snoopy_output_fileoutput (char const * const logMessage, char const * const 
     // Parse the output file specification (i.e. for %{datetime} or similar tags)
     snoopy_message_generateFromFormat(filePath, PATH_MAX, PATH_MAX, arg);
 
+    // Compose the whole record (message + newline) first. It must reach the file
+    // with a single write() call on an O_APPEND descriptor: stdio splits records
+    // larger than its buffer into multiple write()s, which then get interleaved
+    // with the records of other processes logging into the same file.
+    logMessageLength = strlen(logMessage);
+    recordBuf = malloc(logMessageLength + 1);
+    if (NULL == recordBuf) {
+        return SNOOPY_OUTPUT_FAILURE;
+    }
+    memcpy(recordBuf, logMessage, logMessageLength);
+    recordBuf[logMessageLength] = '\n';
+
     // Try to open file in append mode
-    fp = fopen(filePath, "a");
-    if (NULL == fp) {
+    fd = open(filePath, O_WRONLY|O_CREAT|O_APPEND, 0666);
+    if (-1 == fd) {
+        free(recordBuf);
         return SNOOPY_OUTPUT_FAILURE;
     }
 
-    // Try to print to file
-    charCount = fprintf(fp, "%s\n", logMessage);
-    fclose(fp);
-    return charCount;
+    // Try to write to file
+    bytesWritten = write(fd, recordBuf, logMessageLength + 1);
+    close(fd);
+    free(recordBuf);
+    return (int) bytesWritten;
 }
